@@ -9,12 +9,199 @@
 # recorded on the pinned tree (golden ids) are covered by the bounded native search only.
 from pyvc.api import *
 from contracts import C02
+import ast, z3
+from pyvc.ty import *
+from pyvc.core import Raise, Exc, Unsupported
+from pyvc.view import SV, W
+
 def build(reg):
     units = C02.build(reg, prop='C03')
+    units += digest_coro(reg)
     F = 'pym/bob/input.py'
     units += [Watch(F, 'CoreStep.getResultId', 'result-id digest (sorted weak tools, sandbox paths, provided env)'),
               Watch(F, 'CoreTool.__init__', 'tool result id'), Watch(F, 'CoreSandbox.__init__', 'sandbox result id'),
               Watch(F, 'Recipe.prepare', 'fingerprint mask bit assignment over sorted tool names; environment pruning'),
-              Watch('pym/bob/intermediate.py', 'StepIR.getDigestCoro', 'Build-Id digest with platform tag, fingerprint and relaxed weak tools'),
               Watch(F, 'RecipeSet.generatePackages', 'package graph cache')]
+    return units
+
+
+# ---------------------------------------------------------------------------------------------------------------------
+# StepIR.getDigestCoro (pym/bob/intermediate.py): the digest behind the Build-Id (and the Variant-Id of the Jenkins/IR path).
+# Proved against a spec serialisation like CoreStep.getDigest, additionally: the platform tag comes first, the host stream
+# starts with the given fingerprint (Build-Id) or the sandbox id (fingerprinted + sandboxed Variant-Id), and with relaxTools
+# a weakly used tool contributes only its NAME (so the Build-Id ignores which variant of a weak tool is installed).
+def digest_coro(reg):
+    FI = 'pym/bob/intermediate.py'
+    B = sort_of(BYTES); S = z3.StringSort(); I = z3.IntSort()
+    SHA1 = C02.SHA1; PACK_I = C02.PACK_I; UTF8 = C02.UTF8
+    ST = OpaqueT('StepIRRef'); STZ = sort_of(ST); TL = OpaqueT('ToolIRRef'); TLZ = sort_of(TL); SB = OpaqueT('SandboxIRRef'); SBZ = sort_of(SB)
+    CALCS = z3.Function('calculate_ir', STZ, B)
+    SMAP = DictT(STR, STR); TMAP = DictT(STR, TL); LS = ListT(STR); L_ST = ListT(ST); L_B = ListT(BYTES)
+    T_ENV = TupleT(STR, STR); T_TOOL = TupleT(STR, TL); L_ENV = ListT(T_ENV); L_TOOL = ListT(T_TOOL)
+    DENV = z3.Function('IR_digestEnv', STZ, sort_of(SMAP)); TOOLS = z3.Function('IR_tools', STZ, sort_of(TMAP)); WEAK = z3.Function('IR_toolKeysWeak', STZ, sort_of(LS))
+    ISFP = z3.Function('IR_isFingerprinted', STZ, z3.BoolSort()); HASSB = z3.Function('IR_hasSandbox', STZ, z3.BoolSort()); SBOF = z3.Function('IR_sandbox', STZ, SBZ)
+    SB_STEP = z3.Function('SBIR_step', SBZ, STZ); DSCRIPT = z3.Function('IR_digestScript', STZ, sort_of(OptT(STR)))
+    T_STEP = z3.Function('TOOLIR_step', TLZ, STZ); T_PATH = z3.Function('TOOLIR_path', TLZ, S); T_LIBS = z3.Function('TOOLIR_libs', TLZ, sort_of(LS))
+    SORTED_ENV = z3.Function('SORTED_ITEMS_env', sort_of(SMAP), sort_of(L_ENV)); SORTED_TOOLS = z3.Function('SORTED_ITEMS_irtools', sort_of(TMAP), sort_of(L_TOOL))
+    VALID_ARGS = z3.Function('IR_VALID_ARGS', STZ, sort_of(L_ST)); TOOL_STEPS = z3.Function('TOOL_STEPS_OF', sort_of(L_TOOL), sort_of(L_ST))
+    DLEN_E = z3.Function('card_' + SMAP.name(), sort_of(SMAP), I); DLEN_T = z3.Function('card_' + TMAP.name(), sort_of(TMAP), I)
+    OS = OptT(STR); OSB = OptT(SB); OBY = OptT(BYTES)
+    REC = OpaqueT('StepIRData')
+    reg.attr_models['StepIRRef._StepIR__data'] = reg.attr_models['StepIRRef.__data'] = lambda e, st, b, n: [(st, V(REC, z3.Function('IR_data', STZ, sort_of(REC))(b.z)))]
+    base_idx = reg.index_hook
+    def idx_hook(e, st, c, i, node):
+        if c.t == REC and z3.is_string_value(i.z):
+            me = c.z.arg(0); k = i.z.as_string()
+            if k == 'toolKeysWeak':
+                v = V(LS, WEAK(me)); v.src = ('weak-list', me); return [(st, v)]
+            if k == 'digestEnv': return [(st, V(SMAP, DENV(me)))]
+            raise Unsupported('StepIR data key %s' % k)
+        return base_idx(e, st, c, i, node) if base_idx else None
+    reg.index_hook = idx_hook
+    def m(name, fn): reg.models[name] = fn
+    WSET = z3.Function('IR_weak_tool_names', STZ, sort_of(SetT(STR)))
+    base_set = reg.models['set']
+    def set_model(e, st, a, kw, n):
+        if a and isinstance(a[0].t, ListT):
+            z = e.deref(st, a[0])
+            if z3.is_app(z) and z.decl().name() == 'IR_toolKeysWeak':
+                return [(st, e.alloc(st, SetT(STR), WSET(z.arg(0))))]       # set(toolKeysWeak): named, so that the spec can refer to it
+        return base_set(e, st, a, kw, n)
+    reg.models['set'] = set_model
+    m('StepIRRef._isFingerprinted', lambda e, st, a, kw, n: [(st, mk_bool(ISFP(a[0].z)))])
+    m('StepIRRef.getSandbox', lambda e, st, a, kw, n: [(st, V(OSB, z3.If(HASSB(a[0].z), opt_some(OSB, SBOF(a[0].z)), opt_none(OSB))))])
+    m('SandboxIRRef.getStep', lambda e, st, a, kw, n: [(st, V(ST, SB_STEP(a[0].z)))])
+    m('StepIRRef.getDigestScript', lambda e, st, a, kw, n: [(st, V(OS, DSCRIPT(a[0].z)))])
+    m('StepIRRef.getTools', lambda e, st, a, kw, n: [(st, V(TMAP, TOOLS(a[0].z)))])
+    m('ToolIRRef.getStep', lambda e, st, a, kw, n: [(st, V(ST, T_STEP(a[0].z)))])
+    m('ToolIRRef.getPath', lambda e, st, a, kw, n: [(st, V(STR, T_PATH(a[0].z)))])
+    m('ToolIRRef.getLibs', lambda e, st, a, kw, n: [(st, V(LS, T_LIBS(a[0].z)))])
+    def calc_list(e, st, a, kw, n):
+        v = a[1]
+        if not isinstance(v.t, ListT): return None
+        Lz = e.deref(st, v); D = fresh_z(L_B, 'digests'); i = z3.Int(fresh_name('i'))
+        st.assume(list_len(L_B, D) == list_len(L_ST, Lz))
+        st.assume(z3.ForAll([i], z3.Implies(z3.And(0 <= i, i < list_len(L_B, D)), list_get(L_B, D, i) == CALCS(list_get(L_ST, Lz, i))), patterns=[list_get(L_B, D, i)]))
+        return [(st, V(L_B, D))]
+    m('CalculateIR.__call__', calc_list)
+    reg.always_truthy = set(getattr(reg, 'always_truthy', ())) | {'SandboxIRRef', 'StepIRRef', 'ToolIRRef'}
+    reg.pure_names |= {'StepIRRef._isFingerprinted', 'StepIRRef.getSandbox', 'SandboxIRRef.getStep', 'StepIRRef.getDigestScript', 'StepIRRef.getTools', 'ToolIRRef.getStep', 'ToolIRRef.getPath', 'ToolIRRef.getLibs', 'CalculateIR.__call__'}
+    base_sorted = reg.models.get('sorted:hook')
+    def sorted_hook(e, st, a, kw, n):
+        src = getattr(a[0], 'src', None)
+        if src is not None and src[0] == 'dict-items' and src[1] == TMAP:
+            d = src[2]; L = SORTED_TOOLS(d); st.assume(list_len(L_TOOL, L) == DLEN_T(d)); st.assume(DLEN_T(d) >= 0); return [(st, V(L_TOOL, L))]
+        return base_sorted(e, st, a, kw, n) if base_sorted else None
+    reg.models['sorted:hook'] = sorted_hook
+    base_comp = reg.comp_hook
+    def comp_hook(e, st, node, kind):
+        src = ast.unparse(node).replace(' ', '')
+        if kind == 'list' and src == '[aforainself.getArguments()ifa.isValid()]':
+            me = st.frames[-1]['self']; L = VALID_ARGS(me.z); st.assume(list_len(L_ST, L) >= 0)
+            e.assume_note('comprehension of the valid arguments is IR_VALID_ARGS(self): an order preserving filter of getArguments() (not proved)')
+            return [(st, V(L_ST, L))]
+        if kind == 'list' and src == '[tool.getStep()forname,toolintools]':
+            tv = st.frames[-1]['tools']; Lt = e.deref(st, tv); L = TOOL_STEPS(Lt); i = z3.Int(fresh_name('i'))
+            st.assume(list_len(L_ST, L) == list_len(L_TOOL, Lt))
+            st.assume(z3.ForAll([i], z3.Implies(z3.And(0 <= i, i < list_len(L_ST, L)), list_get(L_ST, L, i) == T_STEP(tup_get(T_TOOL, list_get(L_TOOL, Lt, i), 1))), patterns=[list_get(L_ST, L, i)]))
+            e.assume_note('comprehension [tool.getStep() for name, tool in tools] evaluated as the pointwise map (comprehension semantics, not proved by the engine)')
+            return [(st, V(L_ST, L))]
+        return base_comp(e, st, node, kind) if base_comp else None
+    reg.comp_hook = comp_hook
+    # hasher parameter: the DigestHasher class
+    reg.inline_patterns += ['bob.input.DigestHasher.*']
+
+    TOOLS_ENC = z3.Function('ENC_irtools', sort_of(L_TOOL), sort_of(SetT(STR)), I, B); ENV_ENC = z3.Function('ENC_env', sort_of(L_ENV), I, B)
+    LIBS_ENC = z3.Function('ENC_libs', sort_of(LS), I, B); ARGS_R = z3.Function('ENC_irargs_recipe', sort_of(L_ST), I, B); ARGS_H = z3.Function('ENC_irargs_host', sort_of(L_ST), I, B)
+    WS = SetT(STR)
+    def first20(c): return z3.SubSeq(c, 0, z3.If(z3.Length(c) < 20, z3.Length(c), 20))
+    def rest20(c): return z3.SubSeq(c, 20, z3.If(z3.Length(c) > 20, z3.Length(c) - 20, 0))
+    def toolhead(t): return z3.Concat(first20(CALCS(T_STEP(t))), PACK_I(z3.Length(T_PATH(t))), PACK_I(list_len(LS, T_LIBS(t))), UTF8(T_PATH(t)))
+    def tool_item(L, Wk, k):
+        it = list_get(L_TOOL, L, k); nm = tup_get(T_TOOL, it, 0); t = tup_get(T_TOOL, it, 1)
+        return z3.If(z3.Select(Wk, nm), UTF8(nm), z3.Concat(toolhead(t), LIBS_ENC(T_LIBS(t), list_len(LS, T_LIBS(t)))))
+    def unfold():
+        out = []
+        L = z3.Const('uL_irtools', sort_of(L_TOOL)); Wk = z3.Const('uW_irtools', sort_of(WS)); k = z3.Int('uk_irtools')
+        out.append(z3.ForAll([L, Wk], TOOLS_ENC(L, Wk, 0) == z3.Empty(B), patterns=[TOOLS_ENC(L, Wk, 0)]))
+        out.append(z3.ForAll([L, Wk, k], z3.Implies(k >= 0, TOOLS_ENC(L, Wk, k + 1) == z3.Concat(TOOLS_ENC(L, Wk, k), tool_item(L, Wk, k))), patterns=[TOOLS_ENC(L, Wk, k + 1)]))
+        for fn, item in ((ARGS_R, lambda L_, k_: first20(CALCS(list_get(L_ST, L_, k_)))), (ARGS_H, lambda L_, k_: rest20(CALCS(list_get(L_ST, L_, k_))))):
+            L2 = z3.Const('uL_' + fn.name(), sort_of(L_ST)); k2 = z3.Int('uk_' + fn.name())
+            out.append(z3.ForAll([L2], fn(L2, 0) == z3.Empty(B), patterns=[fn(L2, 0)]))
+            out.append(z3.ForAll([L2, k2], z3.Implies(k2 >= 0, fn(L2, k2 + 1) == z3.Concat(fn(L2, k2), item(L2, k2))), patterns=[fn(L2, k2 + 1)]))
+        return out
+    reg.axioms['always:ir-digest-spec-unfolding'] = unfold      # (ENC_env / ENC_libs unfoldings come from the C02 axioms)
+
+    ZERO20 = z3.Function('py_bytes_repeat', B, I, B)(z3.Unit(z3.BitVecVal(0, 8)), z3.IntVal(20))
+    zero4 = z3.Concat(*[z3.Unit(z3.BitVecVal(0, 8)) for _ in range(4)])
+    def script_part(me):
+        sc = DSCRIPT(me); s_ = opt_val(OS, sc)
+        return z3.If(z3.And(z3.Not(opt_is_none(OS, sc)), z3.Length(s_) > 0), z3.Concat(PACK_I(z3.Length(s_)), UTF8(s_)), zero4)
+    def TLs(me): return SORTED_TOOLS(TOOLS(me))
+    def ELs(me): return SORTED_ENV(DENV(me))
+    def nT(me): return list_len(L_TOOL, TLs(me))
+    def nE(me): return list_len(L_ENV, ELs(me))
+    def AV(me): return VALID_ARGS(me)
+    def nA(me): return list_len(L_ST, AV(me))
+    def weakset(o):
+        """set of weak tool names that are relaxed on this path (empty unless relaxTools)"""
+        return WSET(o.self.z) if z3.is_true(z3.simplify(o.relaxTools.z)) else z3.K(S, z3.BoolVal(False))
+    def H0(o):
+        me = o.self.z; fp = o.fingerprint
+        if isinstance(fp.t, OptT): isn = opt_is_none(fp.t, fp.z); fv = opt_val(fp.t, fp.z)
+        else: isn = z3.BoolVal(fp.t == NONE); fv = fp.z if fp.t == BYTES else z3.Empty(B)
+        return z3.If(z3.Not(isn), fv, z3.If(z3.And(ISFP(me), HASSB(me)), CALCS(SB_STEP(SBOF(me))), z3.Empty(B)))
+    def head(o): return z3.Concat(o.platform.z, ZERO20, script_part(o.self.z), PACK_I(nT(o.self.z)))
+    def hR(v): return v.h.f('__recipes').z
+    def hH(v): return v.h.f('__host').z
+    def after_tools(o, Wk, k): return z3.Concat(head(o), TOOLS_ENC(TLs(o.self.z), Wk, k))
+    def after_env(o, Wk, k): return z3.Concat(after_tools(o, Wk, nT(o.self.z)), PACK_I(nE(o.self.z)), C02_ENV_ENC(ELs(o.self.z), k))
+    C02_ENV_ENC = ENV_ENC
+    def zipped_ok(cur, old, L):
+        """the zipped list pairs the sorted tools with the digests of their steps"""
+        me = old.self.z; i = z3.Int(fresh_name('zi')); ZT = TupleT(T_TOOL, BYTES)
+        return z3.And(list_len(ListT(ZT), L) == nT(me),
+                      z3.ForAll([i], z3.Implies(z3.And(0 <= i, i < nT(me)),
+                          z3.And(tup_get(ZT, list_get(ListT(ZT), L, i), 0) == list_get(L_TOOL, TLs(me), i),
+                                 tup_get(ZT, list_get(ListT(ZT), L, i), 1) == CALCS(T_STEP(tup_get(T_TOOL, list_get(L_TOOL, TLs(me), i), 1))))), patterns=[list_get(ListT(ZT), L, i)]))
+    def loop_tools(cur, old, k, L):
+        Wk = weakset(old)
+        return [('pairs-sorted-tools-with-their-digests', zipped_ok(cur, old, L)), ('recipe-stream', hR(cur) == after_tools(old, Wk, k)), ('host-stream', hH(cur) == H0(old)),
+                ('args-digests', args_ok(cur, old))] + weak_frame(cur, old)
+    def weak_frame(cur, old):
+        w = cur.weakTools
+        return [('weak-tool-set-unchanged', w.z == WSET(old.self.z))] if isinstance(w.t, SetT) and w.t.elem == STR else []
+    def args_ok(cur, old):
+        me = old.self.z; i = z3.Int(fresh_name('ai')); AD = cur.argsDigests.z
+        return z3.And(list_len(L_B, AD) == nA(me), z3.ForAll([i], z3.Implies(z3.And(0 <= i, i < nA(me)), list_get(L_B, AD, i) == CALCS(list_get(L_ST, AV(me), i))), patterns=[list_get(L_B, AD, i)]))
+    def loop_libs(cur, old, k, L):
+        me = old.self.z; t = cur.tool.z; j = cur.var('__k1').z; Wk = weakset(old)
+        it = list_get(L_TOOL, TLs(me), j)
+        return [('iterates-the-libs-of-this-tool', z3.And(L == T_LIBS(t), t == tup_get(T_TOOL, it, 1), cur.name.z == tup_get(T_TOOL, it, 0), z3.Not(z3.Select(Wk, cur.name.z)), 0 <= j, j < nT(me))),
+                ('host-stream', hH(cur) == H0(old)), ('recipe-stream', hR(cur) == z3.Concat(after_tools(old, Wk, j), toolhead(t), LIBS_ENC(T_LIBS(t), k))),
+                ('args-digests', args_ok(cur, old))] + weak_frame(cur, old)
+    def loop_env(cur, old, k, L):
+        Wk = weakset(old)
+        return [('iterates-the-sorted-env', L == ELs(old.self.z)), ('recipe-stream', hR(cur) == after_env(old, Wk, k)), ('host-stream', hH(cur) == H0(old)), ('args-digests', args_ok(cur, old))]
+    def loop_args(cur, old, k, L):
+        me = old.self.z; Wk = weakset(old); i = z3.Int(fresh_name('li'))
+        return [('iterates-the-argument-digests', z3.And(list_len(L_B, L) == nA(me), z3.ForAll([i], z3.Implies(z3.And(0 <= i, i < nA(me)), list_get(L_B, L, i) == CALCS(list_get(L_ST, AV(me), i))), patterns=[list_get(L_B, L, i)]))),
+                ('recipe-stream', hR(cur) == z3.Concat(after_env(old, Wk, nE(me)), PACK_I(nA(me)), ARGS_R(AV(me), k))),
+                ('host-stream', hH(cur) == z3.Concat(H0(old), ARGS_H(AV(me), k)))]
+    def dig(R, H): return z3.If(z3.Length(H) > 0, z3.Concat(SHA1(R), SHA1(H)), SHA1(R))
+    def post(o, n, r):
+        me = o.self.z; Wk = weakset(o)
+        R = z3.Concat(after_env(o, Wk, nE(me)), PACK_I(nA(me)), ARGS_R(AV(me), nA(me)))
+        H = z3.Concat(H0(o), ARGS_H(AV(me), nA(me)))
+        return r.z == dig(R, H)
+    def hasher_cls(eng, st): return V(CLS, 'bob.input.DigestHasher')
+    units = []
+    for relax in (False, True):
+        for fpt, fpn in ((NONE, 'variant-id'), (BYTES, 'build-id')):
+            u = Unit(FI, 'StepIR.getDigestCoro', {'self': ST, 'calculate': OpaqueT('CalculateIR'), 'hasher': hasher_cls, 'fingerprint': fpt, 'platform': BYTES, 'relaxTools': (lambda r: (lambda eng, st: mk_bool(r)))(relax)}, 'C03', result=BYTES,
+                name='StepIR.getDigestCoro[%s,relaxTools=%s]' % (fpn, relax),
+                ensures=[('digest-of-exactly-the-spec-serialisation(platform,script,tools-or-weak-tool-names,env,arguments;host=fingerprint-or-sandbox)', post)],
+                loops={1: LoopSpec(inv=loop_tools), 2: LoopSpec(inv=loop_libs), 3: LoopSpec(inv=loop_env), 4: LoopSpec(inv=loop_args)},
+                locals_types={'tool': TL}, note='Build-Id / IR Variant-Id digest against the spec serialisation')
+            units.append(u)
     return units
